@@ -292,6 +292,7 @@ func (Engine) Run(t *tape.Tape, o eng.Opts) *eng.Result {
 	}
 	if sr.Capped {
 		viol("liveness.step-budget", "the run exceeded its step budget")
+		return res // the run was cut off: requests that never got their turn have no record to judge
 	}
 	anyMutation := false
 	for _, q := range all {
